@@ -89,6 +89,12 @@ class SystematicMixin:
             out = E2ECheck.execute(self, case)
             out['cls'] = [f'systematic:{name}']
             stats.add(case, out, max_samples=1)
+        for name, case in systematic.serial_interrupt_cases(
+                shard, nshards, self._run_plain, self.systematic_kinds,
+                pairs=pairs):
+            out = E2ECheck.execute(self, case)
+            out['cls'] = [f'serial-interrupt:{name}']
+            stats.add(case, out, max_samples=1)
 
     def coverage_extra(self, tier, results):
         what = ('every single fault site (before/after effect, each fault '
@@ -99,6 +105,11 @@ class SystematicMixin:
                 '+limits of one with shutdown(cancel))')
         if tier == 'thorough':
             what += '; thorough: also pairs'
+        what += ('; plus every scenario on the serial executor with a '
+                 'KeyboardInterrupt raised at every S3 call (before/after '
+                 'effect), source/stream read and destination operation in '
+                 'turn (class serial-interrupt; thorough: also paired with '
+                 'one ordinary fault)')
         return {'exhaustive': True, 'exhaustive_bound': what,
                 'explanation': 'exhaustive: true refers to this systematic '
                                'sub-domain; the Hypothesis part is sampled'}
@@ -638,6 +649,12 @@ class C08(E2ECheck):
             out = E2ECheck.execute(self, case)
             out['cls'] = [f'line-systematic:{name.split("+")[0]}']
             stats.add(case, out, max_samples=0)
+        # serial executor: a Ctrl-C inside every request / read / write
+        for name, case in systematic.serial_interrupt_cases(
+                shard, nshards, self.run, pairs=tier == 'thorough'):
+            out = E2ECheck.execute(self, case)
+            out['cls'] = [f'serial-interrupt:{name}']
+            stats.add(case, out, max_samples=0)
 
     def coverage_extra(self, tier, results):
         return {'coordinator_level': 'every pair of coordinator operations '
@@ -647,7 +664,11 @@ class C08(E2ECheck):
                 'line_systematic': 'every scenario of the fixed matrix '
                 '(plain, and with a cancel at 3 early steps) with one forced '
                 'preemption at every executed s3transfer source line '
-                '(thorough: to each of 2 other threads)'}
+                '(thorough: to each of 2 other threads)',
+                'serial_interrupt': 'every scenario of the fixed matrix on '
+                'the serial executor with a KeyboardInterrupt raised at '
+                'every S3 call (before/after effect), read and destination '
+                'operation in turn (thorough: also paired with one fault)'}
 
 
 class C09(RealScaleMixin, E2ECheck):
